@@ -81,3 +81,62 @@ V("C20", "twin-nested-guard", "mdtraj/formats/mdcrd.py",
   """            if os.path.exists(filename):
                 if not force_overwrite:
                     raise OSError('"%s" already exists' % filename)""", None)
+
+# ---------------------------------------------------------------- C03
+T = "mdtraj/core/trajectory.py"
+V("C03", "slice-xyz-copy-removed", T, "            xyz = xyz.copy()\n            time = time.copy()", "            time = time.copy()",
+  "C03-R1", "Trajectory.slice")
+V("C03", "join-topology-shared", T, """        return self.__class__(
+            xyz,
+            deepcopy(self._topology),""", """        return self.__class__(
+            xyz,
+            self._topology,""", "C03-R1", "Trajectory.join")
+V("C03", "slice-time-not-indexed", T, "        time = self.time[key]", "        time = self.time", "C03-R2", "Trajectory.slice")
+V("C03", "slice-traces-unindexed-again", T, "rmsd_traces = np.atleast_1d(self._rmsd_traces[key])", "rmsd_traces = self._rmsd_traces",
+  "C03-R2", "Trajectory.slice")
+V("C03", "slice-traces-copy-removed", T, "            if rmsd_traces is not None:\n                rmsd_traces = rmsd_traces.copy()\n", "",
+  "C03-R1", "Trajectory.slice")
+V("C03", "superpose-bypasses-setter", T, "        self.xyz = self_displace_xyz\n        return self", "        self._xyz = self_displace_xyz\n        return self",
+  "C03-R3", "Trajectory.superpose")
+V("C03", "atom_slice-reset-removed", T, "            # the cached traces were computed for the full atom set\n            self._rmsd_traces = None\n", "",
+  "C03-R3", "Trajectory.atom_slice")
+V("C03", "center-drops-traces", T, "            self._rmsd_traces = _rmsd._center_inplace_atom_major(self._xyz)", "            _rmsd._center_inplace_atom_major(self._xyz)",
+  "C03-R3", "Trajectory.center_coordinates")
+V("C03", "join-angles-over-other-only", T, "            angles = np.concatenate([t.unitcell_angles for t in trajectories])",
+  "            angles = np.concatenate([t.unitcell_angles for t in other])", "C03-R4", "Trajectory.join")
+V("C03", "join-unitcell-check-dropped", T, """            if not all(self._have_unitcell == o._have_unitcell for o in other):
+                raise ValueError("Mixing trajectories with and without unitcell")
+""", "", "C03-R4", "Trajectory.join")
+V("C03", "atom_slice-time-shared", T, "        time = self._time.copy()\n", "        time = self._time\n", "C03-R1", "Trajectory.atom_slice")
+V("C03", "atom_slice-xyz-asarray", T, '        xyz = np.array(self.xyz[:, atom_indices], order="C")', '        xyz = np.asarray(self.xyz[:, atom_indices], order="C")',
+  "C03-R1", "Trajectory.atom_slice")
+V("C03", "stack-xyz-shared-when-other-empty", T, "        xyz = np.hstack((self.xyz, other.xyz))", "        xyz = self.xyz if other.n_atoms == 0 else np.hstack((self.xyz, other.xyz))",
+  "C03-R1", "Trajectory.stack")
+V("C03", "rg-centres-input-in-place", "mdtraj/geometry/rg.py",
+  "    centered = (xyz.transpose((1, 0, 2)) - mu).transpose((1, 0, 2))", "    xyz -= mu[:, None, :]\n    centered = xyz",
+  "C03-R5", "compute_rg")
+V("C03", "save_dcd-converts-in-place", T, """            f.write(
+                xyz=in_units_of(self.xyz, Trajectory._distance_unit, f.distance_unit),
+                cell_lengths=in_units_of(
+                    self.unitcell_lengths,
+                    Trajectory._distance_unit,
+                    f.distance_unit,
+                ),
+                cell_angles=self.unitcell_angles,
+            )
+
+    def save_dtr(""", """            f.write(
+                xyz=in_units_of(self.xyz, Trajectory._distance_unit, f.distance_unit, inplace=True),
+                cell_lengths=in_units_of(
+                    self.unitcell_lengths,
+                    Trajectory._distance_unit,
+                    f.distance_unit,
+                ),
+                cell_angles=self.unitcell_angles,
+            )
+
+    def save_dtr(""", "C03-R5", "Trajectory.save_dcd")
+V("C03", "twin-np.array-copy", T, "            xyz = xyz.copy()\n            time = time.copy()", "            xyz = np.array(xyz, copy=True)\n            time = time.copy()", None)
+V("C03", "twin-reorder-assignments", T, "        xyz = self.xyz[key]\n        time = self.time[key]", "        time = self.time[key]\n        xyz = self.xyz[key]", None)
+V("C03", "twin-atom_slice-reset-via-setter", T, "            self._xyz = xyz\n            # the cached traces were computed for the full atom set\n            self._rmsd_traces = None\n",
+  "            self.xyz = xyz\n", None)
